@@ -6,6 +6,10 @@ package main
 // truncated or ill-formed document.
 
 import (
+	"bytes"
+	"compress/gzip"
+	"compress/zlib"
+	"encoding/base64"
 	"fmt"
 	"os"
 	"path/filepath"
@@ -101,6 +105,7 @@ type diskRun struct {
 	nfile  int
 	where  string
 	failed bool
+	oddNames bool
 }
 
 func (d *diskRun) fail(oracle, msg string) {
@@ -115,14 +120,20 @@ func (d *diskRun) fail(oracle, msg string) {
 // store writes data as a new file on the selected disk and returns its path.
 func (d *diskRun) store(data []byte) string {
 	d.nfile++
+	name := fmt.Sprintf("doc-%d.json", d.nfile%64)
+	if d.oddNames {
+		// file names a path-normalising reader would mangle: surrounding blanks, dots, unicode, long names
+		name = []string{"doc %d.json ", " doc-%d.json", "doc-%d.json.", "döc-%d.json", "doc-%d..json", "-doc-%d", "doc-%d.JSON", strings.Repeat("n", 180) + "-%d", "~doc-%d.json", "doc-%d.json\t"}[d.nfile%10]
+		name = fmt.Sprintf(name, d.nfile%64)
+	}
 	if d.real {
-		p := filepath.Join(realDiskDir(), fmt.Sprintf("doc-%d.json", d.nfile%64))
+		p := filepath.Join(realDiskDir(), name)
 		if err := os.WriteFile(p, data, 0o644); err != nil {
 			panic("real disk write failed: " + err.Error())
 		}
 		return p
 	}
-	p := fmt.Sprintf("%sdoc-%d.json", simMount, d.nfile)
+	p := simMount + fmt.Sprintf("%d-", d.nfile) + name
 	d.disk.Put(p, data)
 	return p
 }
@@ -303,6 +314,7 @@ func runDisk(ch *simrt.Chooser, opt Options) RunResult {
 	d := &diskRun{res: &res, disk: disk}
 	out := simrt.Run(ch, cfg, func(s *simrt.Sim) {
 		d.real = s.Draw("disk", 4) == 0
+		d.oddNames = s.Draw("odd-file-names", 5) == 0
 		if os.Getenv("VERIF_REALDISK_ONLY") != "" {
 			d.real = true
 		}
@@ -426,10 +438,10 @@ func runDisk(ch *simrt.Chooser, opt Options) RunResult {
 				}
 				res.Counters["torn-documents-enumerated-exhaustively"]++
 			} else {
-				for i := 0; i < 256; i++ {
+				for i := 0; i < 96; i++ {
 					cuts = append(cuts, s.Draw("cut", len(b)))
 				}
-				for k := 0; k < 64 && k < len(b); k++ {
+				for k := 0; k < 32 && k < len(b); k++ {
 					cuts = append(cuts, k, len(b)-1-k)
 				}
 				res.Counters["torn-documents-sampled"]++
@@ -493,7 +505,7 @@ func runDisk(ch *simrt.Chooser, opt Options) RunResult {
 		case "transcoded":
 			// the document re-encoded by a tool (UTF-16 LE/BE with byte order mark, UTF-8 BOM, Latin-1, NUL-interleaved, CRLF line ends)
 			var enc []byte
-			kind := []string{"utf16le-bom", "utf16be-bom", "utf16le", "utf8-bom", "latin1", "crlf", "nul-padded"}[s.Draw("transcode", 7)]
+			kind := []string{"utf16le-bom", "utf16be-bom", "utf16le", "utf8-bom", "latin1", "crlf", "nul-padded", "gzip", "zlib", "base64"}[s.Draw("transcode", 10)]
 			runes := []rune(doc)
 			switch kind {
 			case "utf16le-bom", "utf16le", "utf16be-bom":
@@ -516,6 +528,20 @@ func runDisk(ch *simrt.Chooser, opt Options) RunResult {
 						}
 					}
 				}
+			case "gzip":
+				var zb bytes.Buffer
+				zw := gzip.NewWriter(&zb)
+				zw.Write(b)
+				zw.Close()
+				enc = zb.Bytes()
+			case "zlib":
+				var zb bytes.Buffer
+				zw := zlib.NewWriter(&zb)
+				zw.Write(b)
+				zw.Close()
+				enc = zb.Bytes()
+			case "base64":
+				enc = []byte(base64.StdEncoding.EncodeToString(b))
 			case "utf8-bom":
 				enc = append([]byte{0xEF, 0xBB, 0xBF}, b...)
 			case "latin1":
